@@ -37,6 +37,10 @@ void harness(void){
   }
 #else
   __CPROVER_assert(verif_count_ok(EV_WRITE) <= 1, "file output under faults: never more than one write(2) of the record");
+  /* whichever way the destination ends up being opened (first attempt, or a fallback after ENOENT/EEXIST/...): every descriptor the record
+     is written to was opened for appending and never truncating - a record written at a fixed offset overwrites other writers' records */
+  for (int i = 0; i < VERIF_NEV; i++) if (i < verif_nev && verif_ev[i].kind == EV_OPEN && verif_ev[i].ok)
+    __CPROVER_assert((verif_ev[i].flags & O_APPEND) && !(verif_ev[i].flags & O_TRUNC), "file output under faults: every successful open of the destination is O_APPEND, never O_TRUNC");
 #endif
   VERIF_CANARY();
 }
